@@ -36,6 +36,22 @@ int main(int argc, char **argv)
       return 1;
     }
   }
+  // validator, lengths other than 24: NUL-terminated strings of every length 0..40 made of alphabet symbols with 0, 1 or 2 '=' at the end
+  // (the shapes a length test that is off, rounds, or tolerates missing padding lets through); nothing but length 24 may be accepted
+  for (int it = 0; it < 20000; ++it)
+  {
+    unsigned char s[48];
+    int len = it < 41 * 3 ? it / 3 : rand() % 41, pad = it < 41 * 3 ? it % 3 : rand() % 3;
+    if (len == 24) continue;
+    memset(s, 0, sizeof s);
+    for (int i = 0; i < len; ++i) s[i] = i >= len - pad ? '=' : spec_b64_char(rand());
+    if (is_valid_b64(s, len))
+    {
+      printf("FAILING INPUT: key validator accepts the %d-character string \"%s\" (only 24-character encodings of 16-byte values may be accepted; "
+             "the callers decode a fixed 24 symbols into the 16-byte key buffer)\n", len, (const char *)s);
+      return 1;
+    }
+  }
   // codec
   for (int it = 0; it < 20000; ++it)
   {
